@@ -107,4 +107,24 @@ rewrite addSn sum_seqsS [RHS]sum_seqsS; apply: eq_bigr => s _.
 by rewrite IH.
 Qed.
 
+(* ---------------------------------------------------------------- sums over bit vectors *)
+Lemma sum_bits_cat a b (f : seq bool -> K) :
+  \sum_(x <- bits (a + b)) f x = \sum_(s <- bits a) \sum_(v <- bits b) f (s ++ v).
+Proof. exact: sum_bits_add. Qed.
+
+Lemma sum_bits_eq k (f : seq bool -> K) (v : seq bool) :
+  size v = k -> \sum_(s <- bits k | s == v) f s = f v.
+Proof. exact: sum_pick1. Qed.
+
+Lemma sum_split_take a b (sigma : seq bool) (f : seq bool -> K) :
+  size sigma = a ->
+  \sum_(x <- bits (a + b) | take a x == sigma) f x = \sum_(v <- bits b) f (sigma ++ v).
+Proof.
+move=> hs; rewrite big_mkcond sum_bits_cat /=.
+rewrite -(@sum_bits_eq a (fun s => \sum_(v <- bits b) f (s ++ v))) // [RHS]big_mkcond /=.
+apply: eq_big_seq => s; rewrite mem_bitsE => /eqP hsz.
+rewrite -hsz; under eq_bigr do rewrite take_size_cat //.
+by case: ifP => // _; rewrite big1.
+Qed.
+
 End FieldBridge.
